@@ -2192,7 +2192,7 @@ class Parameters:
             if new_val is Skip or new_val is Undefined:
                 continue
             elif is_async:
-                async_executor(partial(self_._async_ref, pname, new_val))
+                async_executor(partial(self_._async_ref, pname, new_val, ref))
                 continue
 
             updates[pname] = new_val
@@ -2213,13 +2213,22 @@ class Parameters:
         except Skip:
             value = Undefined
         if is_async:
-            async_executor(partial(self_._async_ref, pobj.name, value))
+            async_executor(partial(self_._async_ref, pobj.name, value, ref))
             value = None
         return ref, deps, value, is_async
 
-    async def _async_ref(self_, pname, awaitable):
+    async def _async_ref(self_, pname, awaitable, ref=None):
         if not self_.self._param__private.initialized:
-            async_executor(partial(self_._async_ref, pname, awaitable))
+            async_executor(partial(self_._async_ref, pname, awaitable, ref))
+            return
+
+        if ref is not None and self_.self._param__private.refs.get(pname) is not ref:
+            # The reference was overridden or replaced before this task
+            # started: its result must not be applied any more.
+            if hasattr(awaitable, 'close'):
+                awaitable.close()
+            elif hasattr(awaitable, 'aclose'):
+                await awaitable.aclose()
             return
 
         import asyncio
